@@ -13,6 +13,7 @@ use std::fmt::Debug;
 use std::hash::Hash;
 use std::hash::Hasher;
 use std::num::NonZeroU32;
+#[cfg(not(all(feature = "isographlabs_isograph_verif", not(test))))]
 use std::sync::atomic::AtomicU32;
 use std::sync::atomic::Ordering;
 use std::u32;
@@ -27,6 +28,8 @@ use crate::atomic_arena;
 use crate::atomic_arena::AtomicArena;
 use crate::idhasher::BuildIdHasher;
 use crate::sharded_set::ShardedSet;
+#[cfg(all(feature = "isographlabs_isograph_verif", not(test)))]
+use crate::verif_sync::AtomicU32;
 
 /// `InternId`s wrap the `Ref<T>` type.
 #[doc(hidden)]
